@@ -53,6 +53,9 @@ def h_rbf(env, kind, n=1, nctrl=2, ntot=3):
     elif kind == "const*subset_slice_step":
         idx = [0, 2]
         kern = K.DiffConstantKernel(env.par("c", "pos", hi="8")) * K.SubsetRBF(slice(0, None, 2), length_scale=_arr(env, [ls[0], ls[2]]))
+    elif kind == "const*subset_list":
+        idx = [2, 0]
+        kern = K.DiffConstantKernel(env.par("c", "pos", hi="8")) * K.SubsetRBF([2, 0], length_scale=_arr(env, [ls[2], ls[0]]))
     else:
         raise ValueError(kind)
     nsub = len(idx)
@@ -185,9 +188,107 @@ def h_linear(env):
         env.deriv("linear_map_gradient_%d" % j, f, ("x", (0, j)), dres[0, j])
 
 
+def _map_stubs(mt):
+    """interpolation.splines (numba) is replaced by recorders: UCGrid(*dims) -> the dims, filter_cubic(grid, f) -> f.
+    Contract used: the natural cubic spline built from f interpolates f at every grid node."""
+    saved = (mt.UCGrid, mt.filter_cubic)
+    mt.UCGrid = lambda *dims: tuple(dims)
+    mt.filter_cubic = lambda grid, f: f
+    return saved
+
+
+def _kernel_for_map(env, K, kind, ls):
+    """returns (kernel, ntot)"""
+    sc = env.arr("s", (3,), "pos", lo="1/8", hi="8")
+    if kind == "srbf0*sarbf_tail":        # the layout of kernel_plans/arbf_exchange.py
+        return K.SubsetRBF(slice(0, 1), length_scale=_arr(env, ls[:1])) * K.SubsetARBF(slice(1, None), order=2, length_scale=_arr(env, ls[1:3]), scale=sc), 3
+    if kind == "sarbf_tail":
+        return K.SubsetARBF(slice(1, None), order=2, length_scale=_arr(env, ls[1:3]), scale=sc), 3
+    if kind == "sarbf_list":
+        return K.SubsetARBF([0, 2], order=2, length_scale=_arr(env, [ls[0], ls[2]]), scale=sc), 3
+    if kind == "srbf_last*sarbf_head":
+        return K.SubsetRBF(slice(2, 3), length_scale=_arr(env, ls[2:3])) * K.SubsetARBF(slice(0, 2), order=2, length_scale=_arr(env, ls[0:2]), scale=sc), 3
+    if kind == "sarbf_order1_tail":
+        return K.SubsetARBF(slice(1, None), order=1, length_scale=_arr(env, ls[1:3]), scale=sc[:2].copy()), 3
+    if kind == "addrq_tail":
+        return K.SubsetAddRQ(slice(1, None), order=2, length_scale=_arr(env, ls[1:3]), scale=sc, alpha=env.const(2)), 3
+    if kind == "addllrbf_tail":
+        return K.SubsetAddLLRBF(slice(1, None), order=2, length_scale=_arr(env, ls[1:3]), scale=sc, alpha=env.const(2)), 3
+    raise ValueError(kind)
+
+
+def h_map_additive(env, kind, nctrl=2):
+    """get_mapped_gp_evaluator_additive: the spline grids cover the bounds of the features they are evaluated on, and at every
+    tensor-grid node  const + sum_t scale_t * f_t[node]  equals the GP predictive function  sum_a k(x_node, x_a) alpha_a"""
+    import contextlib
+    import io
+    K, td, mt = env.m.kernels, env.m.td, env.m.map_tools
+    lsq = [Fraction(1, 2), Fraction(3, 4), Fraction(5, 4)]
+    ls = [env.const(q) for q in lsq]
+    bounds = [(Fraction(0), Fraction(1)), (Fraction(-1), Fraction(1)), (Fraction(1, 2), Fraction(5, 2))]
+    flist = td.FeatureList([td.UMap(i, env.const(Fraction(1, 4)), bounds=(env.const(b[0]), env.const(b[1]))) for i, b in enumerate(bounds)])
+    kern, ntot = _kernel_for_map(env, K, kind, ls)
+    Xc = env.arr("Xc", (nctrl, ntot), lo="-4", hi="4")
+    al = env.arr("alpha", (nctrl,), lo="-4", hi="4")
+    saved = _map_stubs(mt)
+    try:
+        with contextlib.redirect_stdout(io.StringIO()):
+            ok, out = env.attempt("mapper_returns", lambda: mt.get_mapped_gp_evaluator_additive(kern, Xc.copy(), al.copy(), flist, max_ngrid=3))
+    finally:
+        mt.UCGrid, mt.filter_cubic = saved
+    if not ok:
+        return
+    scale, ind_sets, grids, fsets = out[:4]
+    const = out[4] if len(out) > 4 else env.const(0)
+    env.check("one_scale_per_term", len(scale) == len(ind_sets) == len(grids) == len(fsets), "%d %d %d %d" % (len(scale), len(ind_sets), len(grids), len(fsets)))
+    if not (len(scale) == len(ind_sets) == len(grids) == len(fsets)):
+        return
+    nodes = {}
+    grids_ok = True
+    for t, (inds, gd) in enumerate(zip(ind_sets, grids)):
+        for p, i in enumerate(inds):
+            i = int(i)
+            lo, hi, ng = gd[p]
+            env.equal("term%d_dim%d_grid_lower_is_feature%d_lower_bound" % (t, p, i), lo + env.const(0), env.const(bounds[i][0]))
+            env.equal("term%d_dim%d_grid_upper_is_feature%d_upper_bound" % (t, p, i), hi + env.const(0), env.const(bounds[i][1]))
+            env.check("term%d_dim%d_ngrid" % (t, p), int(ng) == 3, str(ng))
+            grids_ok = grids_ok and abs(float(lo) - float(bounds[i][0])) < 1e-12 and abs(float(hi) - float(bounds[i][1])) < 1e-12 and int(ng) == 3
+            nodes[i] = [bounds[i][0] + (bounds[i][1] - bounds[i][0]) * Fraction(k, 2) for k in range(3)]
+    if not grids_ok:
+        return      # the node positions assumed below are not the ones the mapper used; the failed grid obligations above say so
+    mapped = sorted(nodes)
+    x = env.arr("x", (1, ntot), lo="-4", hi="4")       # coordinates the kernel ignores stay symbolic
+    import itertools as _it
+    for combo in _it.product(range(3), repeat=len(mapped)):
+        xn = x.copy()
+        for i, k in zip(mapped, combo):
+            xn[0, i] = env.const(nodes[i][k])
+        f = sum((kern(xn.copy(), Xc.copy())[0, a] * al[a] for a in range(nctrl)), env.const(0))
+        g = const + env.const(0)
+        for t, inds in enumerate(ind_sets):
+            idx = tuple(combo[mapped.index(int(i))] for i in inds)
+            g = g + scale[t] * fsets[t][idx]
+        env.equal("node_%s_value_equals_kernel_sum" % "".join(map(str, combo)), g, f)
+
+
+def h_k0_for_mapping(env, name):
+    """get_k0_for_mapping(X, Y, l)[a, j] is the one-dimensional factor of the kernel between X[a] and grid node Y[j]"""
+    K = env.m.kernels
+    ls = env.arr("l", (1,), "pos", lo="1/8", hi="8")
+    kw = dict(alpha=env.const(2)) if name != "DiffARBFV2" else {}
+    kern = getattr(K, name)(order=1, length_scale=ls.copy(), scale=_arr(env, [env.const(0), env.const(1)]), **kw)
+    X = env.arr("X", (2,), lo="-4", hi="4")
+    Y = env.arr("Y", (2,), lo="-4", hi="4")
+    k0 = kern.get_k0_for_mapping(X.copy(), Y.copy(), ls[0])
+    for a in range(2):
+        for j in range(2):
+            full = kern(_arr(env, [[X[a]]]), _arr(env, [[Y[j]]]))[0, 0]      # order-1 kernel with scale (0, 1) in one dimension = the factor
+            env.equal("k0_%d_%d_is_kernel_factor" % (a, j), k0[a, j], full)
+
+
 def tasks(tier):
     out = []
-    kinds = ["full", "const*full", "const*subset_slice", "const*subset_slice_open", "const*subset_slice_step"]
+    kinds = ["full", "const*full", "const*subset_slice", "const*subset_slice_open", "const*subset_slice_step", "const*subset_list"]
     for kind in kinds:
         out.append(Task("rbf/%s" % kind, h_rbf, dict(kind=kind), mods="kernels", max_paths=16))
     if tier == "thorough":
@@ -197,6 +298,13 @@ def tasks(tier):
     out.append(Task("spin", h_spin, {}, mods="kernels"))
     out.append(Task("spin_v2_raw", h_spin_v2_raw, {}, mods="kernels"))
     out.append(Task("linear", h_linear, {}, mods="kernels"))
+    mk = ["srbf0*sarbf_tail", "sarbf_tail", "srbf_last*sarbf_head", "addrq_tail"]
+    if tier == "thorough":
+        mk += ["sarbf_list", "sarbf_order1_tail", "addllrbf_tail"]
+    for kind in mk:
+        out.append(Task("map_additive/%s" % kind, h_map_additive, dict(kind=kind), mods="kernels"))
+    for name in ("DiffARBFV2", "DiffAddLLRBF", "DiffAddRQ"):
+        out.append(Task("k0_for_mapping/%s" % name, h_k0_for_mapping, dict(name=name), mods="kernels"))
     return out
 
 
